@@ -10,6 +10,7 @@ import (
 	"fmt"
 	"math/rand"
 
+	discoveryv1 "k8s.io/api/discovery/v1"
 	metav1 "k8s.io/apimachinery/pkg/apis/meta/v1"
 	"k8s.io/apimachinery/pkg/util/intstr"
 	"sigs.k8s.io/controller-runtime/pkg/client"
@@ -91,6 +92,8 @@ func EncodeObjs(objs []client.Object) []world.ObjJSON {
 			kind = "HTTPRoute"
 		case *gatewayv1alpha2.TCPRoute:
 			kind = "TCPRoute"
+		case *discoveryv1.EndpointSlice:
+			kind = "EndpointSlice"
 		}
 		if kind == "" {
 			out[i] = world.EncodeObj(o)
@@ -119,6 +122,8 @@ func DecodeObjs(js []world.ObjJSON) []client.Object {
 			o = &gatewayv1.HTTPRoute{}
 		case "TCPRoute":
 			o = &gatewayv1alpha2.TCPRoute{}
+		case "EndpointSlice":
+			o = &discoveryv1.EndpointSlice{}
 		default:
 			out[i] = world.DecodeObj(j)
 			continue
